@@ -148,6 +148,53 @@ class Scripted:
         return (False, None, 0, "")[self.k % 4]
 
 
+def scripted_with(hooks):
+    """the scripted test with only some of the optional hooks (a plain module with just interesting() is the
+    common case in practice)"""
+    hooks = tuple(hooks)
+    if set(hooks) == {"init", "cleanup"}:
+        return Scripted
+    ns = {"__doc__": "scripted test without " + "/".join(h for h in ("init", "cleanup") if h not in hooks)}
+
+    class Bare:
+        __init__ = Scripted.__init__
+        interesting = Scripted.interesting
+    for h in hooks:
+        setattr(Bare, h, getattr(Scripted, h))
+    Bare.__doc__ = ns["__doc__"]
+    return Bare
+
+
+class lithium_logging:
+    """the logging set-up of the command line (INFO, or DEBUG with -v) for the duration of a run, into a sink"""
+
+    def __init__(self, level):
+        self.level = level
+
+    def __enter__(self):
+        import logging
+        if self.level is None:
+            return self
+        self.logger = logging.getLogger()
+        self.old = self.logger.level
+        self.handler = logging.Handler()
+        self.handler.emit = lambda record: record.getMessage()     # format every message, keep nothing
+        self.logger.addHandler(self.handler)
+        self.logger.setLevel(self.level)
+        self.old_disable = logging.root.manager.disable
+        logging.disable(logging.NOTSET)
+        return self
+
+    def __exit__(self, *exc):
+        import logging
+        if self.level is None:
+            return False
+        self.logger.removeHandler(self.handler)
+        self.logger.setLevel(self.old)
+        logging.disable(self.old_disable)
+        return False
+
+
 class Clock:
     def __init__(self, values, log=None):
         self.values, self.i, self.log = list(values), 0, log
@@ -270,7 +317,7 @@ class Run:
 
 def impl_run(strategy, cfg, tc, file0, verdict, clock=(), exc_class=TestRaised, atom="line",
              cap=5000, load=False, ext=".txt", watchdog=30.0, auto_tmp=False, via_link=None, prefill=None,
-             light=None):
+             light=None, hooks=("init", "cleanup"), log_level=None):
     """tc = (before, parts, reducible, after) placed directly into a testcase object, or (when
     load=True) ignored in favour of Testcase.load(file0).  verdict: str or callable(k, data)."""
     import lithium.strategies as st
@@ -316,7 +363,7 @@ def impl_run(strategy, cfg, tc, file0, verdict, clock=(), exc_class=TestRaised, 
         res.loaded = (testcase.before, list(testcase.parts), list(testcase.reducible),
                       testcase.after)
         events = []
-        script = Scripted(real_path, tmp, verdict, events, exc_class, cap)
+        script = scripted_with(hooks)(real_path, tmp, verdict, events, exc_class, cap)
         script.light = light
         lith = Lithium()
         lith.strategy = make_strategy(strategy, cfg)
@@ -358,7 +405,7 @@ def impl_run(strategy, cfg, tc, file0, verdict, clock=(), exc_class=TestRaised, 
             try:
                 if auto_tmp:
                     os.chdir(work)
-                with no_tty():
+                with no_tty(), lithium_logging(log_level):
                     rc = lith.run()
             finally:
                 signal.setitimer(signal.ITIMER_REAL, 0)
